@@ -332,6 +332,13 @@ func (a *Alerts) Put(ctx context.Context, alerts ...*types.Alert) error {
 				(!alert.StartsAt.After(old.StartsAt) && !alert.EndsAt.Before(old.EndsAt)) {
 				alert = old.Merge(alert)
 			}
+
+			// What is left of an outdated update after merging is dropped
+			// here rather than silently by the store, so that subscribers
+			// only ever see versions the provider itself holds.
+			if alert.UpdatedAt.Before(old.UpdatedAt) {
+				continue
+			}
 		}
 
 		if err := a.callback.PreStore(alert, existing); err != nil {
